@@ -16,9 +16,10 @@ Readings fixed here (see the report):
   `C17_sequence_header_literal_differs` in Props.lean records the difference.
 * ParallelAction has no pseudo code; it always reports success (`finish(true)`).
 * IfElseAction with the selected branch absent reports success.
-* RepeatAction with times = 0 runs nothing and reports success (reason RepeatNoTimes), as
-  `for (i = 0; i < times; ++i)` says; the code used to compute `times - 1` in `size_t`
-  (patches/C17-05).
+* RepeatAction with times = 0: the header's `for (i = 0; i < times; ++i)` would run nothing, but the
+  code computes `times - 1` in `size_t` and the unit test RepeatAction.FunctionActionForeverNoBreak
+  uses exactly that as "repeat for ever"; the evaluator follows the test (diverges unless a break
+  condition ends it).
 -/
 import TboxModel.C17.Model
 namespace Tbox.C17
@@ -62,11 +63,12 @@ def eval : T → Option (Bool × Nat)
         | some (false, w) => some (fr, w)
         | _ => none
     | .repeat_ n m =>
-        -- `for (i = 0; i < times …)`: zero times runs nothing
-        if n == 0 then some (true, 7) else
         match evalAt cs 0 with
         | none => none
-        | some (s, w) => if (m == .breakSucc && s) || (m == .breakFail && !s) then some (s, w) else some (true, 7)
+        | some (s, w) =>
+          if (m == .breakSucc && s) || (m == .breakFail && !s) then some (s, w)
+          -- times = 0 means "for ever" (remain_times_ = times - 1 in size_t; unit test FunctionActionForeverNoBreak)
+          else if n == 0 then none else some (true, 7)
     | .wrapper m =>
         match evalAt cs 0 with
         | none => none
